@@ -37,19 +37,26 @@ type Case struct {
 	Prefix  string     `json:"prefix,omitempty"`
 }
 
-func (c Case) file(noFormat bool) *recipe.File {
+func (c Case) file(noFormat bool) *recipe.File { return c.fileN(noFormat, 1) }
+
+// fileN: the File holds uses statements that all use the same Dict value.
+func (c Case) fileN(noFormat bool, uses int) *recipe.File {
 	var pairs []recipe.Pair
 	for _, p := range c.Pairs {
 		pairs = append(pairs, recipe.Pair{K: p.Key, V: p.Val})
 	}
 	d := recipe.Dict(pairs...)
 	d.ViaFunc = c.ViaFunc
-	var lit *recipe.Node
-	if c.Wrap == "map" {
-		lit = recipe.S().C("Map", recipe.S().C("Interface")).C("Interface").C("Values", d)
-	} else {
-		lit = recipe.Id("T").C("Values", d)
+	if uses > 1 {
+		d.Ref = 1
 	}
+	mkLit := func() *recipe.Node {
+		if c.Wrap == "map" {
+			return recipe.S().C("Map", recipe.S().C("Interface")).C("Interface").C("Values", d)
+		}
+		return recipe.Id("T").C("Values", d)
+	}
+	lit := mkLit()
 	fr := &recipe.File{Ctor: "NewFile", Args: []recipe.Text{"p"}}
 	if c.Prefix != "" {
 		fr.Ops = append(fr.Ops, recipe.FileOp{Op: "PackagePrefix", Args: []recipe.Text{recipe.Text(c.Prefix)}})
@@ -58,6 +65,9 @@ func (c Case) file(noFormat bool) *recipe.File {
 		fr.Ops = append(fr.Ops, recipe.FileOp{Op: "NoFormat"})
 	}
 	fr.Body = []*recipe.Node{recipe.S().C("Var").C("Id", "_").C("Op", "=").Then(lit)}
+	for i := 1; i < uses; i++ {
+		fr.Body = append(fr.Body, recipe.S().C("Var").C("Id", "_").C("Op", "=").Then(mkLit()))
+	}
 	return fr
 }
 
@@ -201,6 +211,35 @@ func check(c Case) error {
 		single := live[0]
 		if !multiline(single.Key) && !multiline(single.Val) && fset.Position(cl.Lbrace).Line != fset.Position(cl.Rbrace).Line {
 			return fmt.Errorf("a single pair must be rendered inline\n--- formatted ---\n%s", fmtOut)
+		}
+	}
+	// the same Dict value (one Go map) used by two statements of one File, the File rendered twice:
+	// every use renders what the single use renders, both times
+	body := func(out []byte) string {
+		i := bytes.Index(out, []byte("var _ ="))
+		if i < 0 {
+			return string(out)
+		}
+		return string(out[i:])
+	}
+	one := body(rawOut)
+	var twice [2]string
+	if perr := hx.Safe(func() error {
+		f := recipe.BuildFile(c.fileN(true, 2))
+		for k := range twice {
+			b := &bytes.Buffer{}
+			if err := f.Render(b); err != nil {
+				return err
+			}
+			twice[k] = body(b.Bytes())
+		}
+		return nil
+	}); perr != nil {
+		return fmt.Errorf("one Dict value used by two statements of a File: %v", perr)
+	}
+	for k := range twice {
+		if twice[k] != one+"\n"+one {
+			return fmt.Errorf("one Dict value used by two statements of a File (render %d) gives\n%q\nused once it gives\n%q", k+1, twice[k], one)
 		}
 	}
 	return nil
